@@ -1209,7 +1209,7 @@ def close(a, b, tol=1e-9, scale=1.0):
     or a float constant such as cos(90 deg) = 6e-17); tolerant float comparison in replay"""
     if is_sym(a) or is_sym(b):
         return band(a - b <= tol * scale, b - a <= tol * scale)
-    return abs(float(a) - float(b)) <= max(TOL, tol) * max(scale, abs(float(a)), abs(float(b)), 1.0)
+    return abs(float(a) - float(b)) <= tol * scale + 1e-9 * max(abs(float(a)), abs(float(b)), 1.0)
 
 
 def alleq(A, B, scale=None):
